@@ -161,6 +161,12 @@ func (t Table) addRoute(d *RouteDef) error {
 		return fmt.Errorf("route: invalid target. %s", err)
 	}
 
+	// a target like '#' is the empty URL: it would be written as a
+	// 'route add' without a target which the parser does not accept
+	if targetURL.String() == "" {
+		return errInvalidTarget
+	}
+
 	switch {
 	// add new host
 	case t[host] == nil:
